@@ -102,7 +102,8 @@ def errName : Err → String
   | .msgBuild => "OscMessageBuildError"
   | .bundleBuild => "OscBundleBuildError"
   | .parse e => derrName e
-  | .notModelled => "NOT-MODELLED"
+  | .overflow => "OverflowError"
+  | _ => "NOT-MODELLED"          -- (.notModelled, and whatever C06's model adds later)
 
 def fmtBytes : Except Err Bytes → String
   | .ok d => "ok " ++ toHex d
